@@ -19,7 +19,7 @@ from ..monitors import EvalTracer
 
 glom = env.bind()
 import glom.core as gcore  # noqa: E402
-from glom import (T, S, A, Val, Spec, Pipe, Coalesce, And, Or, Switch, Match, Vars, Ref, Auto, Regex, GlomError,  # noqa: E402
+from glom import (T, S, A, M, Val, Spec, Pipe, Coalesce, And, Or, Switch, Match, Vars, Ref, Auto, Regex, GlomError,  # noqa: E402
                   glom as G)
 
 META = {
@@ -506,6 +506,56 @@ def systematic(col, rng, tracer):
         col.violation('C07/systematic:globals-outlive-the-call', 'first %r, then a fresh call reading S.globals.g: %r' % (first, second), None)
 
 
+def spec_glom_entry(col):
+    """Spec(spec, scope=m).glom(target, scope=...) is an entry point of its own: values passed via scope= are
+    readable through S, never outlive the call, and neither the caller's mapping nor the Spec's own is modified"""
+    own = {'x': 'spec-x'}
+    sp = Spec({'x': Coalesce(S.x, default=ABSENT), 'y': Coalesce(S.y, default=ABSENT), 'z': Coalesce(S.z, default=ABSENT)}, scope=own)
+    history = [({'y': 'call1-y'}, {'x': 'spec-x', 'y': 'call1-y', 'z': ABSENT}),
+               ({}, {'x': 'spec-x', 'y': ABSENT, 'z': ABSENT}),
+               ({'x': 'override', 'z': 'call3-z'}, {'x': 'override', 'y': ABSENT, 'z': 'call3-z'}),
+               (None, {'x': 'spec-x', 'y': ABSENT, 'z': ABSENT}),
+               ({'y': 'call5-y'}, {'x': 'spec-x', 'y': 'call5-y', 'z': ABSENT})]
+    for i, (arg, want) in enumerate(history):
+        caller = None if arg is None else dict(arg)
+        before = snapshot(caller) if caller is not None else None
+        got = call(sp.glom, 'T') if caller is None else call(sp.glom, 'T', scope=caller)
+        col.case(('spec.glom', i), True)
+        col.count('reader_observations', 3)
+        if not got.ok or got.value != want:
+            col.violation('C07/spec-glom-scope-leaks-between-calls', 'call #%d of one Spec object via .glom(scope=%r): %r, expected %r'
+                          % (i + 1, arg, got, want), None)
+            return
+        if caller is not None and snapshot(caller) != before:
+            col.violation('C07/caller-scope-modified', 'Spec.glom(scope=%r) changed the caller mapping to %r' % (arg, caller), None)
+            return
+        if own != {'x': 'spec-x'}:
+            col.violation('C07/spec-scope-mapping-modified', "the mapping given to Spec(scope=) is now %r" % own, None)
+            return
+
+
+def matchdict_two_keys(col, rng):
+    """a Match-dict key passes its bindings to its own value spec only: constant key + binding key, both target orders"""
+    for binder_name, binder in (('A.k', A.k), ('S(k=)', S(k=Val('BOUND')))):
+        for order in (('bound', 'const'), ('const', 'bound')):
+            for outer in (None, 'OUTER'):
+                rd_const, rd_bound = Coalesce(S.k, default=ABSENT), Coalesce(S.k, default=ABSENT)
+                pattern = Match({'const': Auto(rd_const), And(str, M != 'const') if False else binder: Auto(rd_bound)})
+                target = {}
+                for o in order:
+                    target['const' if o == 'const' else 'other'] = 1
+                spec = (S(k=Val(outer)), pattern) if outer else pattern
+                got = call(G, target, spec)
+                bound_val = 'other' if binder_name == 'A.k' else 'BOUND'
+                want = {'const': outer or ABSENT, 'other': bound_val}
+                col.case(('matchdict-two-keys', binder_name, order, outer), True)
+                col.count('reader_observations', 2)
+                if not got.ok or got.value != want:
+                    col.violation('C07/match-dict-key-binding-visible-to-sibling-value:%s' % ('binder-first' if order[0] == 'bound' else 'const-first'),
+                                  'Match({const: reader, %s: reader}) on %r%s gave %r, expected %r'
+                                  % (binder_name, target, ' with outer k' if outer else '', got, want), None)
+
+
 def run(ctx):
     col, rng = ctx.col, ctx.rng
     tracer = EvalTracer()
@@ -515,6 +565,8 @@ def run(ctx):
     try:
         if ctx.shard == 0:
             systematic(col, rng, tracer)
+            spec_glom_entry(col)
+            matchdict_two_keys(col, rng)
         for i in range(ctx.n(6000, 40000)):
             one_case(col, rng, tracer)
     finally:
